@@ -622,6 +622,14 @@ func (s *Store) Flush() error {
 	s.rateLk.Unlock()
 
 	if !s.outstandingWork() {
+		// Nothing to write, but a writer may already be waiting for this
+		// flush because an earlier flush wrote its data before it registered.
+		s.rateLk.Lock()
+		if s.flushNotice != nil {
+			close(s.flushNotice)
+			s.flushNotice = nil
+		}
+		s.rateLk.Unlock()
 		return nil
 	}
 
